@@ -121,6 +121,54 @@ func checkC17(c *core.Ctx) {
 		}
 		c.Set("largest_fuel_completed", k)
 	}
+	// layout styles: tinyfo has its own tokenizer and offside handling; the programs with at most 1 construct (thorough:
+	// 2) are also written in three fixed other styles (every layout point of the style at a non-default answer
+	// wherever it occurs).  A style tinyfo rejects is outside the quantifier like any rejected program.
+	if !c.Expired() && !c.TooManyViolations() {
+		styles := map[string]c17Style{
+			"arrow-line":         {"arm-block-on-arrow-line": 1, "fun-body-same-line": 1},
+			"airy":               {"block-indent": 2, "arm-column": 2, "arm-body-next-line": 1, "let-rhs-next-line": 1, "lambda-body-next-line": 1, "blank-lines-before": 1, "if-inline": 1},
+			"pipes-and-comments": {"pipe-break": 2, "comment-before": 1, "line-end": 2},
+		}
+		maxStyleK := 1
+		if c.Thorough() {
+			maxStyleK = 2
+		}
+		var nStyled int64
+		for _, name := range []string{"arrow-line", "airy", "pipes-and-comments"} {
+			st := styles[name]
+			for k := 0; k <= maxStyleK; k++ {
+				c01Enumerate(fo.Profile{Tiny: true}, k, 16*300, func(cases []*c01Case) bool {
+					if c.Expired() || c.TooManyViolations() {
+						return false
+					}
+					for _, cs := range cases {
+						cs.layout = st
+					}
+					nStyled += int64(len(cases))
+					c17RunChunk(c, sc, tiny, fc, foiPath, cases, map[string]int64{}, map[string]int64{}, &mu)
+					return true
+				})
+			}
+		}
+		// blocks inside arms need two constructs: the arrow-line style also on all programs with 2 constructs over
+		// matches, sequencing and lets
+		if !c.Thorough() {
+			only := map[string]bool{"match-union": true, "match-union-default": true, "match-union-permuted": true, "seq": true, "let": true, "let-destr": true, "app-say": true}
+			c01Enumerate(fo.Profile{Tiny: true, Only: only}, 2, 16*300, func(cases []*c01Case) bool {
+				if c.Expired() || c.TooManyViolations() {
+					return false
+				}
+				for _, cs := range cases {
+					cs.layout = styles["arrow-line"]
+				}
+				nStyled += int64(len(cases))
+				c17RunChunk(c, sc, tiny, fc, foiPath, cases, map[string]int64{}, map[string]int64{}, &mu)
+				return true
+			})
+		}
+		c.Set("programs_in_other_layout_styles", nStyled)
+	}
 	// the scale family (see C01): programs whose size, not nesting, is n; tinyfo judges which it accepts
 	if !c.Expired() && !c.TooManyViolations() {
 		sizes := []int{3, 9, 10, 11, 17, 33}
@@ -147,6 +195,16 @@ func checkC17(c *core.Ctx) {
 	}
 }
 
+// c17Style: a fixed layout - the answer per layout point (0 where the point has fewer answers)
+type c17Style map[string]int
+
+func (s c17Style) Choose(point string, n int) int {
+	if v, ok := s[point]; ok && v < n {
+		return v
+	}
+	return 0
+}
+
 func c17RunChunk(c *core.Ctx, sc *impl.Scratch, tiny, fc, foi string, cases []*c01Case, used, accepted map[string]int64, mu *sync.Mutex) {
 	// 1. which programs does tinyfo accept (alone)?
 	var wg sync.WaitGroup
@@ -155,7 +213,7 @@ func c17RunChunk(c *core.Ctx, sc *impl.Scratch, tiny, fc, foi string, cases []*c
 	for i, cs := range cases {
 		cs.want, cs.ood = cs.cs.Expected(false)
 		cs.wantDef, _ = cs.cs.Expected(true)
-		cs.src = cs.cs.SourceOpt(nil, true)
+		cs.src = cs.cs.SourceOpt(cs.layout, true)
 		if cs.ood != "" {
 			c.AddInt("out_of_domain", 1)
 			continue
